@@ -49,6 +49,9 @@ DynTemplates ==
     \cup {DDyn("p", "it", c, <<>>, b) : c \in {NVar("l"), NVar("m"), NVar("st")}, b \in Content("it")}
     \cup {DDyn("q", "", c, <<IV("q", "key")>>, b) : c \in {NVar("m"), NVar("ls"), NVar("l")}, b \in Content("q")}
     \cup {DDyn("q", "", NVar("l"), <<NNull>>, <<>>)}
+    \* two labels (one from the iterator, one constant), for the two-label map / object specs
+    \cup {DDyn("q", "", c, <<IV("q", "key"), StrLit("w")>>, b) : c \in {NVar("m"), NVar("ls")},
+                                                                  b \in {<<DAttr("a", IV("q", "value"))>>, <<>>}}
 
 NestedTemplates ==
     {DDyn("p", "it", c, <<>>, b) : c \in {NVar("l"), NVar("m")}, b \in NestedContent("it")}
@@ -88,6 +91,8 @@ Specs == {SBlockList("p", 0, 0, SAttr("a", TStr, FALSE)),
           SBlock("p", FALSE, SAttr("a", TDyn, FALSE)),
           SBlockMap("q", 1, SAttr("a", TStr, FALSE)),
           SBlockObject("q", 1, SAttr("a", TDyn, FALSE)),
+          SBlockMap("q", 2, SAttr("a", TStr, FALSE)),
+          SBlockObject("q", 2, SAttr("a", TDyn, FALSE)),
           SObject(<<"a", "ps">>, <<SAttr("a", TNum, FALSE), SBlockTuple("p", 0, 0, SObject(<<"a", "inner">>, <<SAttr("a", TDyn, FALSE), SBlockTuple("p", 0, 0, SAttr("a", TDyn, FALSE))>>))>>),
           SBlockTuple("p", 1, 2, SAttr("a", TDyn, TRUE)),
           SBlockTuple("p", 0, 0, SObject(<<"a", "l2">>, <<SAttr("a", TDyn, FALSE),
